@@ -217,7 +217,7 @@ fn freq_oracle(c: &FreqCase, rec: &Rec, ctx: &Ctx) -> Result<(), String> {
     let inner = (want_trials * 8 / 7 + 600) / c.loops;
     let steps = inner * c.loops;
     let cfg = OptCfg { steps, inner, kt_start: kt, kt_finish: None, kt_ratio: Some(0.), max_step: 1e-3, convergence: None, seed: c.seed };
-    let policy = WorsePolicy { d_per_loop: vec![d], inner, proposals: cfg.proposals(), base: 0. };
+    let policy = WorsePolicy { d_per_loop: vec![d], inner, proposals: cfg.proposals(), base: 0., recentre: false };
     let out = run_script(&cfg, &vec![0.5; 8], &vec![(0., 1.); 8], false, true, Box::new(policy));
     rec.eval(out.steps.len() as u64 + 1);
     if let Some(p) = &out.panicked {
